@@ -124,6 +124,28 @@ type outcome struct {
 	panicked string
 }
 
+// stallTicks: number of 2 ms ticker ticks the watchdog must observe without progress (in addition to the
+// wall-clock bound) before a schedule is declared deadlocked; on a starved machine ticks are dropped, so the
+// verdict follows the CPU time this process actually received.
+const stallTicks = 1000
+
+// blocked reports whether `done` stays open for stallTicks observed ticks and at least d of wall time.
+func blocked(done <-chan string, d time.Duration) (string, bool) {
+	start, ticks := time.Now(), 0
+	tick := time.NewTicker(2 * time.Millisecond)
+	defer tick.Stop()
+	for {
+		select {
+		case v := <-done:
+			return v, false
+		case <-tick.C:
+			if ticks++; ticks >= stallTicks && time.Since(start) > d {
+				return "", true
+			}
+		}
+	}
+}
+
 func pos0(tr *event.VerifTrace, point string, ch int) int {
 	for i, e := range tr.Snapshot() {
 		if e.Point == point && e.Ch == ch {
@@ -326,7 +348,7 @@ func runSchedule(s schedule, watchdog time.Duration) (out outcome) {
 	wait := func(wg *sync.WaitGroup) bool {
 		done := make(chan struct{})
 		go func() { wg.Wait(); close(done) }()
-		last, lastN := time.Now(), -1
+		last, lastN, ticks := time.Now(), -1, 0
 		tick := time.NewTicker(2 * time.Millisecond)
 		defer tick.Stop()
 		for {
@@ -334,10 +356,12 @@ func runSchedule(s schedule, watchdog time.Duration) (out outcome) {
 			case <-done:
 				return true
 			case <-tick.C:
+				// no verdict by wall-clock alone: the watchdog must itself have been scheduled `stallTicks` times
+				// (ticks are dropped when the process is starved) without seeing a new trace record
 				n := len(tr.Snapshot())
 				if n != lastN {
-					lastN, last = n, time.Now()
-				} else if time.Since(last) > watchdog {
+					lastN, last, ticks = n, time.Now(), 0
+				} else if ticks++; ticks >= stallTicks && time.Since(last) > watchdog {
 					buf := make([]byte, 1<<16)
 					buf = buf[:runtime.Stack(buf, true)]
 					out.deadlock, out.dump = true, string(buf)
@@ -417,6 +441,10 @@ func translate(s schedule, evs []event.VerifEvent) ([]string, string) {
 			ls = append(ls, fmt.Sprintf("sel:%d", sid))
 		case "select_sent":
 			ls = append(ls, fmt.Sprintf("sent:%d:%d", sid, e.Ch))
+		case "select_index": // which of `cases` reflect.Select chose (1-based over the subscription cases): hint for DupLTS
+			if n := len(ls); n > 0 && strings.HasPrefix(ls[n-1], fmt.Sprintf("sent:%d:", sid)) {
+				ls[n-1] += fmt.Sprintf("@%d", e.Arg)
+			}
 		case "select_remove":
 			ls = append(ls, fmt.Sprintf("srm:%d:%d", sid, e.Ch))
 		case "send_unlock":
@@ -460,33 +488,52 @@ func translate(s schedule, evs []event.VerifEvent) ([]string, string) {
 		ls[to] = x
 	}
 	for i := 0; i < len(ls); i++ {
-		var want1, want2 string
 		var c, v int
+		var isPeer func(l string) bool
+		self := ls[i]
 		if n, _ := fmt.Sscanf(ls[i], "re:%d:%d", &c, &v); n == 2 {
-			want1, want2 = fmt.Sprintf("ok:%d:%d", v, c), fmt.Sprintf("sent:%d:%d", v, c)
+			w1, w2 := fmt.Sprintf("ok:%d:%d", v, c), fmt.Sprintf("sent:%d:%d", v, c)
+			isPeer = func(l string) bool { return l == w1 || l == w2 || strings.HasPrefix(l, w2+"@") }
 		} else if n, _ := fmt.Sscanf(ls[i], "rhand:%d", &c); n == 1 {
-			want1 = fmt.Sprintf("srm:%%d:%d", c)
+			suf := fmt.Sprintf(":%d", c)
+			isPeer = func(l string) bool { return strings.HasPrefix(l, "srm:") && strings.HasSuffix(l, suf) }
 		} else {
 			continue
 		}
-		seen := false
-		for j := 0; j < i; j++ {
-			if ls[j] == want1 || ls[j] == want2 || (strings.HasPrefix(want1, "srm:%") && strings.HasPrefix(ls[j], "srm:") && strings.HasSuffix(ls[j], fmt.Sprintf(":%d", c))) {
-				seen = true
-				break
+		// the k-th report of the peer belongs to the k-th report of this kind (a channel subscribed twice gets
+		// the same value twice and may have two removers)
+		peers, selfs := 0, 0
+		for j := 0; j <= i; j++ {
+			if j < i && isPeer(ls[j]) {
+				peers++
+			}
+			if ls[j] == self {
+				selfs++
 			}
 		}
-		if seen {
+		if peers >= selfs {
 			continue
 		}
 		for j := i + 1; j < len(ls); j++ {
-			if ls[j] == want1 || ls[j] == want2 || (strings.HasPrefix(want1, "srm:%") && strings.HasPrefix(ls[j], "srm:") && strings.HasSuffix(ls[j], fmt.Sprintf(":%d", c))) {
+			if isPeer(ls[j]) {
 				moveBefore(j, i)
 				break
 			}
 		}
 	}
 	return ls, ""
+}
+
+// stripHints removes the `@index` hints (used only by DupLTS) from a label list.
+func stripHints(ls []string) []string {
+	out := make([]string, len(ls))
+	for i, l := range ls {
+		if k := strings.IndexByte(l, '@'); k >= 0 {
+			l = l[:k]
+		}
+		out[i] = l
+	}
+	return out
 }
 
 // ---------------------------------------------------------------- black-box oracle
@@ -649,10 +696,10 @@ func typeMismatch(c *vh.Ctx, m *vh.Model) {
 		res <- "true"
 	}()
 	observed := "true"
-	select {
-	case observed = <-res:
-	case <-time.After(300 * time.Millisecond):
+	if v, stuck := blocked(res, 2*time.Second); stuck {
 		observed = "false"
+	} else {
+		observed = v
 	}
 	c.Eval("typemismatch", "typemismatch")
 	c.Correspond("Feed.Subscribe-after-Send-panic~enabled", "enabled sub:2:1 sub:1:1 call:1 lock:1 bad:1", observed, m.Ask("enabled sub:2:1 sub:1:1 call:1 lock:1 bad:1"))
@@ -785,7 +832,7 @@ func main() {
 	}
 	close(next)
 	wg.Wait()
-	var reqs []string
+	var reqs, dreqs []string
 	var reqIdx []int
 	labels := make([][]string, len(results))
 	for i, r := range results {
@@ -809,10 +856,12 @@ func main() {
 			c.Fatal("translate: %s", err)
 		}
 		labels[i] = ls
-		reqs = append(reqs, "run "+strings.Join(ls, " "))
+		reqs = append(reqs, "run "+strings.Join(stripHints(ls), " "))
+		dreqs = append(dreqs, "drun "+strings.Join(ls, " "))
 		reqIdx = append(reqIdx, i)
 	}
 	answers := m.AskAll(reqs)
+	danswers := m.AskAll(dreqs)
 	for k, i := range reqIdx {
 		r := results[i]
 		observed, vs := oracle(r.s, r.out.events)
@@ -826,6 +875,8 @@ func main() {
 		if !c.Correspond("Feed(trace of verifPoints)~FeedLTS.run", reqs[k], observed, answers[k]) && len(c.Res.Disagreements) <= 3 {
 			c.Note("disagreement schedule %+v raw trace %v", r.s, evText(r.out.events))
 		}
+		// the same trace must also be a path of the LTS without the one-subscription-per-channel restriction
+		c.Correspond("Feed(trace of verifPoints)~DupLTS.drun", dreqs[k], observed, danswers[k])
 		for _, v := range vs {
 			c.Violate(v.sig, v.what, map[string]interface{}{"schedule": r.s, "history": evText(r.out.events)})
 		}
@@ -837,7 +888,7 @@ func main() {
 		muxPart(c, m, muxReplay)
 	}
 	if c.Replay == "" {
-		dupPart(c)
+		dupPart(c, m)
 	}
 	raceRun(c)
 	c.Assume("channels and mutexes behave as the Go language specification says; the scheduler and the memory model are not modelled (the race detector is not part of this run)")
